@@ -1242,6 +1242,31 @@ class Item:
         self.rewrite(s0, bs, "{ let mut vx_pos: Option<usize> = None;\n  let mut vx_i: usize = 0;/*@pre*/\n  while vx_i < %s.len()\n  /*@loop*/\n  {\n    let %s = &%s[vx_i];/*@body*/\n    let vx_b = " % (recv, p, recv), "R3-position")
         self.rewrite(be, close + 1, ";\n    if vx_b { vx_pos = Some(vx_i); break; }\n    vx_i = vx_i + 1;\n  }\n  vx_pos }", "R3-position")
 
+    def _apply_lift_r4(self, key, body):
+        """the liftR4 / liftR4opt redirections registered for a lifted closure, applied to its body text"""
+        r4note = ""
+        for old_, new_, opt_ in getattr(self, "lift_r4", {}).get(key, []):
+            # same target language as R4: `$1`..`$9` stand for a place expression
+            toks = re.findall(r"\$\d|\w+|[^\w\s]", old_)
+            pat = r"\s*".join((r"(?P<v%s>[A-Za-z_]\w*(?:\(\s*\))?(?:\[[^\]]*\])?(?:\s*\.\s*[A-Za-z_]\w*(?:\(\s*\))?(?:\[[^\]]*\])?)*?)" % t[1]) if re.match(r"\$\d$", t) else re.escape(t) for t in toks)
+            if re.match(r"\w", old_):
+                pat = r"(?<![\w.])" + pat
+            if re.search(r"\w$", old_):
+                pat = pat + r"\b"
+
+            def _rep(h, new_=new_):
+                rep = new_
+                for gk, gv in h.groupdict().items():
+                    rep = rep.replace("$" + gk[1:], re.sub(r"\s+", "", gv))
+                return rep
+            body, n_ = re.subn(pat, _rep, body)
+            if n_ == 0:
+                if opt_:
+                    continue
+                raise Undecided("LOST-ANCHOR: liftR4 target `%s` not in the closure of %s in %s" % (old_, key, self.where()))
+            r4note += " +R4[%s => %s]" % (old_, new_)
+        return body, r4note
+
     def r3_lift_filter_map(self, fn, k):
         """let V: T = RECV.into_iter().filter_map(|P| { BODY }).collect();   where the closure assigns captured variables
         (FnMut; this Verus has no closures with mutable captures)  ==>  lambda lifting + the definition of filter_map/collect:
@@ -1253,7 +1278,9 @@ class Item:
             raise Undecided("R3 lift-filter-map: no liftparams for fn %s" % fn)
         pdecl, caps, rty, prefix, contract = self.lift[fn]
         k0, _, bo, end, _ = self.fn_span(fn)
-        hits = list(re.finditer(r"\.\s*into_iter\s*\(\s*\)\s*\.\s*filter_map\s*\(", self.m[bo:end]))
+        # `RECV.into_iter().filter_map(` or, for an iterator VALUE (IntoIterator is the identity on iterators), `RECV.filter_map(`
+        hits = list(re.finditer(r"(?:\.\s*into_iter\s*\(\s*\)\s*)?\.\s*filter_map\s*\(", self.m[bo:end]))
+        hits = [h_ for h_ in hits if not re.search(r"\.\s*iter\s*\(\s*\)\s*$", self.m[bo:bo + h_.start()])]
         if len(hits) < k:
             raise Undecided("LOST-ANCHOR: R3 lift-filter-map #%d in fn %s of %s" % (k, fn, self.where()))
         h = hits[k - 1]
@@ -1273,33 +1300,22 @@ class Item:
         s0 = self._stmt_start(bo + h.start())
         semi = self.m.find(";", close)
         if not re.match(r"\s*\.\s*collect\s*\(\s*\)\s*$", self.text[close + 1:semi]):
-            raise Undecided("R3 lift-filter-map: `.collect()` expected after the closure at %s:%d" % (self.relpath, self.line_of(close)))
+            # the lazy form `let V = RECV.into_iter().filter_map(..);` is accepted when the NEXT statement consumes V whole
+            # (`X.extend(V);` / `X.extend(V)`): nothing can observe that the closure then runs one statement earlier
+            mv = re.match(r"let\s+([A-Za-z_]\w*)\s*=", self.text[s0:bo + h.start()])
+            nxt = re.match(r"\s*[A-Za-z_][\w.]*\s*\.\s*extend\s*\(\s*([A-Za-z_]\w*)\s*\)\s*;?\s*\}?", self.m[semi + 1:semi + 200])
+            if self.text[close + 1:semi].strip() or not mv or not nxt or nxt.group(1) != mv.group(1):
+                raise Undecided("R3 lift-filter-map: `.collect()` expected after the closure at %s:%d" % (self.relpath, self.line_of(close)))
         head = self.text[s0:bo + h.start()]
         mo = re.match(r"let\s+([A-Za-z_][A-Za-z0-9_]*)\s*(:\s*[^=]+?)?\s*=\s*(.*)$", head, re.S)
         if not mo:
             raise Undecided("R3 lift-filter-map: statement shape not recognised at %s:%d" % (self.relpath, self.line_of(s0)))
         var, ty, recv = mo.group(1), (mo.group(2) or ""), mo.group(3).strip()
-        capl = [c.strip() for c in caps.split(",") if c.strip()]
+        capl_all = [c.strip() for c in split_top(caps) if c.strip()]
+        capl = [c for c in capl_all if not c.startswith("=")]
+        vcaps = [c[1:].strip() for c in capl_all if c.startswith("=")]       # read-only captures: passed by value / shared reference
         body = self.text[bs:match_brace(self.m, bs) + 1]
-        r4note = ""
-        for old_, new_ in getattr(self, "lift_r4", {}).get(fn, []):
-            # same target language as R4: `$1`..`$9` stand for a place expression
-            toks = re.findall(r"\$\d|\w+|[^\w\s]", old_)
-            pat = r"\s*".join((r"(?P<v%s>[A-Za-z_]\w*(?:\(\s*\))?(?:\[[^\]]*\])?(?:\s*\.\s*[A-Za-z_]\w*(?:\(\s*\))?(?:\[[^\]]*\])?)*?)" % t[1]) if re.match(r"\$\d$", t) else re.escape(t) for t in toks)
-            if re.match(r"\w", old_):
-                pat = r"(?<![\w.])" + pat
-            if re.search(r"\w$", old_):
-                pat = pat + r"\b"
-
-            def _rep(h, new_=new_):
-                rep = new_
-                for gk, gv in h.groupdict().items():
-                    rep = rep.replace("$" + gk[1:], re.sub(r"\s+", "", gv))
-                return rep
-            body, n_ = re.subn(pat, _rep, body)
-            if n_ == 0:
-                raise Undecided("LOST-ANCHOR: liftR4 target `%s` not in the closure of fn %s in %s" % (old_, fn, self.where()))
-            r4note += " +R4[%s => %s]" % (old_, new_)
+        body, r4note = self._apply_lift_r4(fn, body)
         mbody = mask(body)
         for c in capl:
             cn = c.split(":")[0].strip()
@@ -1309,17 +1325,66 @@ class Item:
             out.append(body[last:])
             body = "".join(out)
             mbody = mask(body)
-        params = ", ".join([pdecl] + ["%s: &mut %s" % (c.split(":")[0].strip(), c.split(":", 1)[1].strip()) for c in capl])
+        params = ", ".join([pdecl] + ["%s: &mut %s" % (c.split(":")[0].strip(), c.split(":", 1)[1].strip()) for c in capl] + [v.partition(":=")[0].strip() for v in vcaps])
         if destructure:
             body = "{ " + destructure + body + " }"
         lifted = "fn vx_lifted_%s%s(%s) -> (vx_r: %s)\n/*+vx*/%s/*-vx*/\n%s\n\n  " % (fn, getattr(self, "lift_generics", {}).get(fn, ""), params, rty, contract, body)
         fstart = self._stmt_start(k0)
         self.rewrite(fstart, fstart, lifted, "R3-lift-filter-map" + r4note)
-        args_ = ", ".join([pname] + ["&mut %s" % c.split(":")[0].strip() for c in capl])
+        args_ = ", ".join([pname] + ["&mut %s" % c.split(":")[0].strip() for c in capl] + [(v.partition(":=")[2] or v.split(":")[0]).strip() for v in vcaps])
         loop = ("let mut %s%s = Vec::new();\n    let mut vx_it = vx_into_iter(%s);/*@pre*/\n    loop\n    /*@loop*/\n    {\n"
                 "      let Some(%s) = vx_it.next() else { break; };/*@body*/\n      if let Some(vx_x) = %svx_lifted_%s(%s) { %s.push(vx_x); }\n    }"
                 % (var, ty, recv, pname, prefix, fn, args_, var))
         self.rewrite(s0, semi + 1, loop, "R3-lift-filter-map")
+
+    def r3_lift_let_closure(self, fn, k):
+        """`let NAME = |PARAMS| { BODY };` -- a closure that only READS what it captures, bound to a local and called by name --  ==>
+        lambda lifting: fn vx_lifted_<fn>_<NAME>(PARAMS, captured..) -> R { BODY } in front of the function, the `let` removed, every
+        call `NAME(args)` becomes `vx_lifted_<fn>_<NAME>(args, captured..)`.  NAME is the 4th argument of the directive; parameters,
+        captures (`=name: T := ARG`, all by value / shared reference), result type and contract come from `liftparams <fn>:<NAME>`."""
+        name = (getattr(self, "r3_extra", None) or [""])[0]
+        key = "%s:%s" % (fn, name)
+        if key not in getattr(self, "lift", {}):
+            raise Undecided("R3 lift-let-closure: no liftparams for %s" % key)
+        pdecl, caps, rty, prefix, contract = self.lift[key]
+        k0, _, bo, end, _ = self.fn_span(fn)
+        mo = re.search(r"\blet\s+%s\s*=\s*(?:move\s*)?\|([^|]*)\|\s*\{" % re.escape(name), self.m[bo:end])
+        if not mo:
+            raise Undecided("LOST-ANCHOR: R3 lift-let-closure `let %s = |..| {` in fn %s of %s" % (name, fn, self.where()))
+        s0 = bo + mo.start()
+        bs = bo + mo.end() - 1
+        bc = match_brace(self.m, bs)
+        semi = bc + 1
+        while self.m[semi].isspace():
+            semi += 1
+        if self.m[semi] != ";":
+            raise Undecided("R3 lift-let-closure: `;` expected after the closure of %s" % name)
+        want = re.sub(r"\s+", "", ",".join(x.split(":")[0] for x in split_top(pdecl)))
+        have = re.sub(r"\s+", "", ",".join(x.split(":")[0] for x in split_top(self.text[bo + mo.start(1):bo + mo.end(1)])))
+        if want != have:
+            raise Undecided("R3 lift-let-closure: closure parameters are `%s`, liftparams says `%s`" % (have, want))
+        plist, args = [pdecl], []
+        for c in split_top(caps):
+            c = c.strip()
+            if not c.startswith("="):
+                raise Undecided("R3 lift-let-closure: only read-only captures (`=name: T`) are supported")
+            decl, _, arg = c[1:].partition(":=")
+            plist.append(decl.strip()); args.append((arg or decl.split(":")[0]).strip())
+        lname = "vx_lifted_%s_%s" % (fn, name)
+        lbody, r4note = self._apply_lift_r4(key, self.text[bs:bc + 1])
+        lifted = "fn %s%s(%s) -> (vx_r: %s)\n/*+vx*/%s/*-vx*/\n%s\n\n" % (lname, getattr(self, "lift_generics", {}).get(key, ""), ", ".join(plist), rty, contract, lbody)
+        fstart = self._stmt_start(k0)
+        self.rewrite(fstart, fstart, lifted, "R3-lift-let-closure" + r4note)
+        self.rewrite(s0, semi + 1, "", "R3-lift-let-closure")
+        busy = [(e[0], e[1]) for e in self.edits]
+        for c in re.finditer(r"(?<![A-Za-z0-9_\.])%s\s*\(" % re.escape(name), self.m[bo:end]):
+            a = bo + c.start()
+            if s0 <= a <= semi or any(lo <= a < hi for (lo, hi) in busy if hi > lo):
+                continue      # the definition itself / a region another shape replaces (its own liftR4 renames the call there)
+            po = bo + c.end() - 1
+            pc = match_brace(self.m, po, "(", ")")
+            self.rewrite(a, a + len(name), lname, "R3-lift-let-closure")
+            self.rewrite(pc, pc, ", " + ", ".join(args), "R3-lift-let-closure")
 
     def r3_lift_find_map(self, fn, k):
         """expression `ITER.find_map(|P| { BODY })` whose closure has early exits (`?` / `return`) and assigns captured variables  ==>
@@ -1980,10 +2045,10 @@ def build_unit(unit_path, repo=REPO):
                 # liftwrap <fn> "<impl header {>": lifted fns of fn are emitted in front of the item inside this inherent impl block
                 it.lift_wrap = getattr(it, "lift_wrap", {})
                 it.lift_wrap[args[0]] = args[1]
-            elif name == "liftR4":
-                # liftR4 <fn> "<old>" "<new>": an R4 redirection applied inside the closure body that lift-filter-map lifts
+            elif name in ("liftR4", "liftR4opt"):
+                # liftR4 <fn> "<old>" "<new>": an R4 redirection applied inside the closure body that a lift shape lifts (opt: may be absent)
                 it.lift_r4 = getattr(it, "lift_r4", {})
-                it.lift_r4.setdefault(args[0], []).append((args[1], args[2]))
+                it.lift_r4.setdefault(args[0], []).append((args[1], args[2], name == "liftR4opt"))
             elif name == "R4":
                 it.d_R4(args[0], args[1], "R4")
             elif name == "R4opt":
